@@ -856,7 +856,7 @@ def run_git_failures(tier="quick", seed=0):
     return res
 
 
-ONE_LINE_BOUND = ("14 prefixes (absent, ASCII, non-ASCII, blank, tab, CR, with a line feed at the start / middle / end) x 9 argument vectors of version / flow / render "
+ONE_LINE_BOUND = ("14 prefixes (absent, ASCII, non-ASCII, blank, tab, CR, with a line feed at the start / middle / end) x 11 argument vectors of version / flow / render "
                   "x semver and pep440: whenever the exit status is 0, stdout is the prefix, then one string matching the SemVer 2.0.0 / canonical PEP 440 grammar (ASCII), "
                   "then one line feed and nothing else (thorough: + 300 seeded random prefix / state combinations)")
 _SEMVER_RE = (r"(0|[1-9][0-9]*)\.(0|[1-9][0-9]*)\.(0|[1-9][0-9]*)(-((0|[1-9][0-9]*|[0-9]*[a-zA-Z-][0-9a-zA-Z-]*)(\.(0|[1-9][0-9]*|[0-9]*[a-zA-Z-][0-9a-zA-Z-]*))*))?"
@@ -874,6 +874,9 @@ _ONE_LINE_VECTORS = [
     ["flow"] + NONE + ["1.2.3-beta.4", "--distance", "2", "--bumped-branch", "release/7", "--no-dirty"],
     ["render", "1.2.3-rc.1.post.4+build.5"],
     ["render", "1!2.0rc1.post2.dev3+x.1", "--input-format", "pep440"],
+    # every component of the build section resolves to the empty text (a branch without one ASCII letter or digit; no distance, no hash): nothing may follow the core
+    ["version"] + NONE + ["1.2.3", "--schema", "standard-base-context", "--bumped-branch", "日本語"],
+    ["version"] + NONE + ["2.0.0", "--bumped-branch", "___", "--schema-ron", "(core:[var(Major),var(Minor),var(Patch)],extra_core:[var(BumpedBranch)],build:[var(BumpedBranch),str(\"-\")])"],
 ]
 
 
